@@ -129,7 +129,8 @@ fn triple() -> BoxedStrategy<(String, String, String)> {
         .boxed()
 }
 
-pub(crate) const WS_ALPHA: &[&str] = &["a", "b", "c", "ä", "中", "x", "é"];
+// incl. multi-code-point clusters that NFKC leaves alone (grapheme index != code-point index)
+pub(crate) const WS_ALPHA: &[&str] = &["a", "b", "c", "ä", "中", "x", "é", "👍🏽", "x\u{301}", "🇩🇪"];
 
 fn ws_seq() -> BoxedStrategy<(Vec<String>, Vec<bool>, Vec<bool>, Vec<bool>)> {
     (0usize..=8)
